@@ -116,8 +116,12 @@ Clauses(e) == CASE e.op = "ruletest" -> RuleTestClauses(e)
 
 Check == LET e == Events[i]
              \* under C08 the same recorded calls are judged for being read-only only
+             \* under C15 ("... in a PRIVATE copy") additionally: the caller's document - raw or wrapped in a Data object,
+             \* at every depth - is as it was
              cl == IF IOEnv.VERIF_PROP = "C08"
                    THEN << <<"ReadOnly", e.writes = <<>> /\ e.unchanged>> >>
+                   ELSE IF IOEnv.VERIF_PROP = "C15"
+                   THEN Clauses(e) \o << <<"CastsGoToAPrivateCopy", e.outcome = "ok" => e.unchanged>> >>
                    ELSE Clauses(e)
              bad == {j \in 1..Len(cl) : ~cl[j][2]}
          IN \/ bad = {}
